@@ -128,6 +128,28 @@ def make_harness(layout, cycles):
                     pos += 12 + n
                 rec["dgs"] = dgs
                 rec["expected"] = dict(sg.packet.counters)
+                # the expected working counter of a datagram is the number of
+                # terminals it addresses (written from the layout, not taken
+                # from the code): a node-addressed datagram reaches 1, the
+                # logical read reaches the FMMU terminals with inputs, the
+                # logical write those whose outputs are written
+                want = {}
+                pos = 16
+                for (cmd, data, wkc, idx, *addr) in sg.packet.data:
+                    n = len(data)
+                    if cmd.name == "LRD":
+                        cnt = sum(1 for (f, i, o) in layout if f and i)
+                    elif cmd.name == "LWR":
+                        cnt = sum(1 for (f, i, o) in layout if f and o >= 2)
+                    elif cmd.name == "LRW":
+                        cnt = sum((1 if i else 0) + (2 if o >= 2 else 0)
+                                  for (f, i, o) in layout if f)
+                    else:
+                        cnt = 1
+                    if cmd.name != "NOP":
+                        want[pos + 10 + n] = cnt
+                    pos += 12 + n
+                rec["want"] = want
                 # start() allocates again; keep it the real entry point
                 task = sg.start()
                 rec["sg"] = sg
@@ -158,6 +180,10 @@ def make_harness(layout, cycles):
                                            f"({len(frames)} frames sent)")
         if len(frames) < cycles + 1:
             return
+        E.prove(all(rec["expected"].get(p) == c for p, c in rec["want"].items()),
+                f"the expected working counter of every datagram is the "
+                f"number of terminals it addresses (code: {rec['expected']}, "
+                f"layout: {rec['want']})")
         # (c) every working counter is zero in every frame that is sent
         for k, f in enumerate(frames[:cycles + 1]):
             if k == 0:
